@@ -45,12 +45,12 @@ def decode(data):
     else:
         # structured: mantissa digits + exponents, so boundaries are reachable
         xm = fdp.ConsumeIntInRange(0, 99999999)
-        xe = fdp.ConsumeIntInRange(-300, 292)
+        xe = fdp.ConsumeIntInRange(-300, 299)
         em = fdp.ConsumeIntInRange(1, 99999)
         d = fdp.ConsumeIntInRange(-12, 12)
         neg = fdp.ConsumeBool()
         x = float(f"{'-' if neg else ''}{xm}e{xe - 7}")
-        ee = max(-300, min(295, xe + d))
+        ee = max(-300, min(308, xe + d))
         err = float(f"{em}e{ee - 4}")
     return x, err
 
@@ -58,7 +58,7 @@ def decode(data):
 def in_domain(x, err):
     if not (math.isfinite(x) and math.isfinite(err)):
         return False
-    if not (1e-300 <= err <= 1e300):
+    if not (1e-300 <= err):
         return False
     if x != 0:
         if not (1e-300 <= abs(x) <= 1e300):
